@@ -22,6 +22,7 @@ RULE = ("(repro) generated programs of up to 8 operations from {construct(type, 
         "reinitialise, load) refresh the snapshot. Non-trivial = (repro) program contains a fit and a sampling op; (readonly) >= 4 "
         "distinct read-only ops.")
 RULE_EXT = ('Extended as built: seed forms (positional / keyword / numpy integer / cpu+gpu flags / defaults), SWAP observables, seed sensitivity also after loading an older file, read-only programs on states with a non-zero phase auxiliary bias. Rounds 5-6: enumerated basis states used as start chains with overwrite=True (the enumeration asked for afterwards is part of the output); the same seeded statistics call with the same caller-held chains twice; boundary seeds 0, 1, 2^32-1.')
+RULE_EXT += ' Round 10 (after an exception / long time axis): programs with a fit() aborted by an exception followed by a fit that must train; chains of 33-70 steps sampled twice, and the same seeded long-chain sample / statistics call twice on one object.'
 RULE = RULE + " " + RULE_EXT
 ASSUMPTIONS = ["CPU generator only (set_random_seed(cpu=True)); a single process", "bitwise comparison (torch.equal / ==)"]
 
@@ -213,7 +214,6 @@ def run_program(ops, seed, tmp, form="explicit", shared_cb=None):
             require(not torch.equal(params_flat(state), before_), "fit-after-aborted-fit:no-training", "a fit() that follows a fit() aborted by an exception (caught) did not change any parameter")
             outs.append(params_flat(state))
         elif k == "long_chains":
-            outs.append([state.sample(op["k"], num_samples=3).clone(), state.sample(op["k"], num_samples=3).clone()])
             # the same seeded long-chain call twice on this one object (same arguments, parameters untouched): a function of the seed alone
             res_ = []
             for _ in range(2):
@@ -222,6 +222,7 @@ def run_program(ops, seed, tmp, form="explicit", shared_cb=None):
             require(deep_equal(res_[0], res_[1]), "not-reproducible:long-chains-same-arguments",
                     f"sample({op['k']}, num_samples=3) / statistics(burn_in={op['k']}) called twice on one object with the same seed and arguments gave different results")
             outs.append(res_[0])
+            outs.append([state.sample(op["k"], num_samples=3).clone(), state.sample(op["k"], num_samples=3).clone()])
         elif k == "make_unitaries":
             # building a dictionary of unitaries (operators given as nested lists / arrays / tensors) is a pure function of its arguments: what
             # is sampled afterwards must not depend on it having happened
